@@ -20,11 +20,13 @@ REC = [dict(compress=False, digests=True, cdx=False, log=False),
 def alphabet():
     out = []
     for st in A.STYLES:
+        if st == 'biglf':
+            continue
         out.append([st, 'cl', 'text'])
         out.append([st, 'chunked_ext', 'binary'])
     for fr in A.FRAMINGS:
         for b in ('text', 'binary', 'gzip', 'empty'):
-            if fr in ('cl0', 'n204', 'n304', 'n304cl', 'headcl', 'headte') and b != 'text':
+            if fr in ('cl0', 'n204', 'n304', 'n304cl', 'headcl', 'headte', 'n205chunked') and b != 'text':
                 continue
             out.append(['canon', fr, b])
     out.append(['lf', 'chunked_lf', 'text'])
@@ -53,6 +55,13 @@ def jobs(tier, seed):
         last = red + [['canon', 'close', 'gzip'], ['canon', 'overrun', 'text']]
         for a, b, c in itertools.product(red, red, last):
             js.append(dict(items=[a, b, c], mode='few'))
+    js.append(dict(items=[['biglf', 'cl', 'text'], ['canon', 'cl', 'text']], mode='few'))
+    # an over-long body FIRST, then another exchange: the surplus must go away with the
+    # connection (only deliveries in which the surplus arrives together with the last body
+    # byte are offered, DESIGN.md section 6)
+    for b in ('text', 'binary'):
+        for second in (['canon', 'cl', 'text'], ['canon', 'chunked1', 'text']):
+            js.append(dict(items=[['canon', 'overrun', b], second], mode='overrun-first'))
     if seed:
         k = seed % len(js)
         js = js[k:] + js[:k]
@@ -65,7 +74,12 @@ def run_job(job):
     items = job['items']
     tag = '+'.join('/'.join(i) for i in items)
     total = sum(len(A.make(*it)['response']) for it in items)
-    if job['mode'] == 'cuts2':
+    if job['mode'] == 'overrun-first':
+        m0 = A.make(*items[0])
+        body_end = m0['expect']['msg_len']
+        plans = [[]] + [[c] for c in range(1, body_end - 1)] + \
+            [[c, d] for c in range(1, body_end - 1, 5) for d in range(c + 1, body_end - 1, 7)]
+    elif job['mode'] == 'cuts2':
         plans = list(bytestream.cut_plans(total, 2 if total <= 200 else 1))
     elif job['mode'] == 'cuts1':
         plans = list(bytestream.cut_plans(total, 1))
